@@ -25,7 +25,7 @@ var realResolve = "REAL (instrumented): v2/pkg/engine/resolve"
 
 func init() {
 	props["C11"] = &propCfg{
-		World: "sf", QuickRuns: 60000, ThorRuns: 3000000, QuickSecs: 150, ThorSecs: 1500,
+		World: "sf", QuickRuns: 180000, ThorRuns: 3000000, QuickSecs: 150, ThorSecs: 1500,
 		Level: "exploration", MinNontriv: 50,
 		Rule: "one case = one seeded simulated execution (workload tape W: 2-5 concurrent clients over a pool of query/mutation plans, variables and header sets, cancellations; fault tape F: persistent upstream failures per load key; schedule tape S: every interleaving decision). Non-trivial = at least two requests interacted (an inbound follower, a shared subgraph load, or overlapping loads). Distinct = distinct hash of the sequence of context switches (task id, park site).",
 		Assumptions: []string{
@@ -51,12 +51,12 @@ func init() {
 		"the stub source follows the SubscriptionUpdater contract of the real GraphQL subscription client, including Done() after the trigger context was cancelled",
 	}
 	props["C12"] = &propCfg{
-		World: "sub", QuickRuns: 60000, ThorRuns: 3000000, QuickSecs: 150, ThorSecs: 1500, Level: "exploration", MinNontriv: 50,
+		World: "sub", QuickRuns: 180000, ThorRuns: 3000000, QuickSecs: 150, ThorSecs: 1500, Level: "exploration", MinNontriv: 50,
 		Rule:        "one case = one seeded simulated execution: 1-4 subscribers (sync and async API, 1-2 inputs x 1-2 header sets, optional filter, heartbeat) join/leave (context cancel, UnsubscribeSubscription, UnsubscribeClient) while per-trigger upstream actors emit numbered updates, complete, error, done and late done; faults: flush/heartbeat write errors, start failures, hook failures, resolver shutdown at any step. Non-trivial = at least one source instance started and more than one subscriber. Distinct = distinct hash of the sequence of context switches.",
 		Assumptions: subAssume, Components: subComponents,
 	}
 	props["C13"] = &propCfg{
-		World: "sub", QuickRuns: 60000, ThorRuns: 3000000, QuickSecs: 150, ThorSecs: 1500, Level: "exploration", MinNontriv: 50,
+		World: "sub", QuickRuns: 180000, ThorRuns: 3000000, QuickSecs: 150, ThorSecs: 1500, Level: "exploration", MinNontriv: 50,
 		Rule:        "same runs as C12, evaluated with the trigger lifecycle oracle: no second Start for a key while a live instance with a settled subscriber serves it, no delivery across different (input, headers), and at quiescence empty registries, every Start context cancelled, Inc/Dec totals equal for subscription and trigger counts. Non-trivial = at least one source instance started and more than one subscriber. Distinct = distinct hash of the sequence of context switches.",
 		Assumptions: subAssume, Components: subComponents,
 	}
@@ -72,51 +72,51 @@ func init() {
 		"baton scheduling serialises execution: pure data races on plain fields are invisible",
 	}
 	props["C01"] = &propCfg{
-		World: "fed01", QuickRuns: 30000, ThorRuns: 1500000, QuickSecs: 200, ThorSecs: 1800, Level: "exploration", MinNontriv: 50,
+		World: "fed01", QuickRuns: 90000, ThorRuns: 1500000, QuickSecs: 200, ThorSecs: 1800, Level: "exploration", MinNontriv: 50,
 		Rule:        "one case = one generated (federation, data universe, 1-3 concurrent operations with variables, aliases, fragments, @skip/@include) executed through the real engine under a seeded schedule of the subgraph answers, compared with the reference monolith (data equal, errors iff reference errors) while every subgraph request is validated against that subgraph's own schema and ownership. Non-trivial = at least two subgraph requests. Distinct = distinct hash of the context-switch sequence.",
 		Assumptions: fedAssume, Components: fedComponents,
 	}
 	props["C08"] = &propCfg{
-		World: "fed08", QuickRuns: 16000, ThorRuns: 800000, QuickSecs: 200, ThorSecs: 1800, Level: "exploration", MinNontriv: 50,
+		World: "fed08", QuickRuns: 48000, ThorRuns: 800000, QuickSecs: 200, ThorSecs: 1800, Level: "exploration", MinNontriv: 50,
 		Rule:        "one case = one generated (federation, operation, organiser options waves/DAG x multi-fetch) executed under 4-8 different completion orders (tape strategy, reverse arrival order, uniform, arrival order) with subgraph request de-duplication off; data must equal the reference and be identical across schedules, errors and the multiset of subgraph requests (subgraph, body) identical across schedules, every request valid. A request issued before the data it reads was merged shows up as a different or invalid request. Non-trivial = overlapping subgraph requests occurred. Distinct = distinct hash of the context-switch sequence.",
 		Assumptions: append([]string{"dependency order is observed semantically at the network (a fetch issued before its inputs were merged carries missing/short representations), not by reading plan internals"}, fedAssume...), Components: fedComponents,
 	}
 	props["C07"] = &propCfg{
-		World: "fed07", QuickRuns: 20000, ThorRuns: 1000000, QuickSecs: 200, ThorSecs: 1800, Level: "exploration", MinNontriv: 50,
+		World: "fed07", QuickRuns: 60000, ThorRuns: 1000000, QuickSecs: 200, ThorSecs: 1800, Level: "exploration", MinNontriv: 50,
 		Rule:        "one case = twin execution of one generated (federation, operation): fault-free run recording requests and provenance, then a run with 1-3 injected faults (transport error, 500, 503 empty, empty body, non-JSON, truncated JSON, errors without data, data:null, short _entities batch) at tape-chosen requests; oracle: valid response, >=1 error, every request sent is a fault-free request with a subset of its representations, data == reference executed with the failed positions failing (positions with two admissible outcomes are compared either way). Non-trivial = at least one fault fired and at least two fault-free requests. Distinct = distinct hash of the context-switch sequence.",
 		Assumptions: append([]string{"a short _entities list is injected only into batches of >=2 (a single empty list is deliberately read as 'entity not found' by the loader)", "fields bundled by the plan into a request that depends on a failed @requires input are treated as dependent on it"}, fedAssume...), Components: fedComponents,
 	}
 	props["C09"] = &propCfg{
-		World: "fed09", QuickRuns: 6000, ThorRuns: 300000, QuickSecs: 200, ThorSecs: 1800, Level: "exploration", MinNontriv: 50,
+		World: "fed09", QuickRuns: 18000, ThorRuns: 300000, QuickSecs: 200, ThorSecs: 1800, Level: "exploration", MinNontriv: 50,
 		Rule:        "one case = (a) the same operation planned by three fresh engines under three seeded map-iteration orders of the instrumented packages: identical subgraph requests; (b) a history of 3-8 requests from 1-3 concurrent clients over a pool of operations (renamed-variable and different-value variants) on one shared engine with a tape-chosen option set {multi-fetch, DAG scheduling, minification, de-duplication off, plan cache of size 1-2}: every response equals the same request alone on a fresh default engine. Non-trivial = history of >=3 requests over >=2 pool entries. Distinct = distinct hash of the context-switch sequence.",
 		Assumptions: append([]string{"map-order nondeterminism is only controlled inside the instrumented packages (plan, postprocess, resolve, graphql_datasource, httpclient, execution/engine); other packages keep Go's random order, which varies per run anyway"}, fedAssume...), Components: fedComponents,
 	}
 
 	props["C10"] = &propCfg{
-		World: "fed10", QuickRuns: 16000, ThorRuns: 800000, QuickSecs: 200, ThorSecs: 1800, Level: "exploration", MinNontriv: 50,
+		World: "fed10", QuickRuns: 48000, ThorRuns: 800000, QuickSecs: 200, ThorSecs: 1800, Level: "exploration", MinNontriv: 50,
 		Rule:        "one case = one generated (federation, operation with up to 4 @defer on inline fragments and spreads: nested, sibling, in lists, labels, if literal/variable) executed through the real engine under a seeded completion order of the deferred fetch groups; frames (bytes between flushes) are checked by a stream automaton (valid JSON per frame, initial frame first, ids announced before use, completed exactly once, hasNext false on the last frame only, Complete() once, termination) and the incremental payloads merged at path+subPath must reconstruct the data of the same operation without @defer on the same engine and of the reference monolith; 25% of runs add faults on fetches and assert stream shape, termination and that delivered data is a nulling of the fault-free data. Non-trivial = at least two frames. Distinct = distinct hash of the context-switch sequence.",
 		Assumptions: append([]string{"@defer(if: $var) is generated with the variable true; the twin replaces it by @include(if: $var)"}, fedAssume...), Components: fedComponents,
 	}
 
 	props["C16"] = &propCfg{
-		World: "fed16", QuickRuns: 12000, ThorRuns: 600000, QuickSecs: 200, ThorSecs: 1800, Level: "exploration", MinNontriv: 50,
+		World: "fed16", QuickRuns: 36000, ThorRuns: 600000, QuickSecs: 200, ThorSecs: 1800, Level: "exploration", MinNontriv: 50,
 		Rule:        "one case = a history of 3-9 requests from 1-2 clients (think times of 0-40 simulated seconds) over a pool of operations on one engine with a simulated cache node attached (in-memory map with TTL on the fake clock, recording every GetMany/SetMany); every subgraph response carries a generated Cache-Control header (public/private/no-store/no-cache/max-age/s-maxage, upper case, duplicates, junk tokens, split lines, absent); faults: GetMany error, eviction of a random subset before a lookup, SetMany error with partial store, answers carrying errors next to data. Oracle: every response's data equals the reference, no request fails, everything stored comes from a storable response (own header reader) with TTL <= its lifetime. Non-trivial = a full cache hit or more than one store happened. Distinct = distinct hash of the context-switch sequence.",
 		Assumptions: append([]string{"SetMany calls are attributed to the last subgraph response completed by the storing task (subgraph request de-duplication off)", "the cache node, not the engine, enforces TTL expiry (the repository ships only the caching.Cache interface)"}, fedAssume...), Components: fedComponents,
 	}
 	props["C14"] = &propCfg{
-		World: "fed14", QuickRuns: 20000, ThorRuns: 1000000, QuickSecs: 200, ThorSecs: 1800, Level: "exploration", MinNontriv: 50,
+		World: "fed14", QuickRuns: 60000, ThorRuns: 1000000, QuickSecs: 200, ThorSecs: 1800, Level: "exploration", MinNontriv: 50,
 		Rule:        "one case = one generated (federation, protected coordinate set P (35% of coordinates, never a @requires input), decision function P -> allow/deny(reason) from the tape, mode: post-fetch Authorizer / pre-fetch BatchAuthorizer / both, operation: query, mutation or deferred query); faults: authorizer returns an error, batch authorizer returns the wrong number of decisions. Oracle: sentinel values of denied coordinates never occur in any byte sent to the client (initial and incremental frames); data equals the reference executed with denied coordinates failing (exact null propagation) with an error reported; at the network: a mutation with a denied root field is never sent, with pre-fetch authorization a request whose root fields are all denied is never sent, an authorizer error sends nothing. Non-trivial = the operation text selects a denied field name. Distinct = distinct hash of the context-switch sequence.",
 		Assumptions: append([]string{"subscription updates are not exercised (the FED world has no subscription source)", "exact position check is skipped for deferred operations (sentinel scan and request rule still apply)"}, fedAssume...), Components: fedComponents,
 	}
 
 	props["C02"] = &propCfg{
-		World: "fed02", QuickRuns: 12000, ThorRuns: 600000, QuickSecs: 200, ThorSecs: 1800, Level: "exploration", MinNontriv: 50,
+		World: "fed02", QuickRuns: 36000, ThorRuns: 600000, QuickSecs: 200, ThorSecs: 1800, Level: "exploration", MinNontriv: 50,
 		Rule:        "one case = twin execution of one generated (federation, operation): an uncorrupted run, then a run in which 1-3 positions of the subgraph answers are corrupted before delivery (null, missing key, wrong scalar kind, object for scalar, array for object, scalar for object, invalid enum value, unknown or missing __typename); oracle on the client bytes: one valid JSON document; data conforms to the client schema and contains exactly the selected response keys (own conformance walker); when the corruption did not change downstream requests: data is the uncorrupted data with subtrees nulled, every introduced null is explained by an error at or below it (or is a plain null in a nullable position), every error's nearest nullable ancestor (or one above) is null, and for null corruptions exactly the nearest one. Non-trivial = at least one corruption was applied. Distinct = distinct hash of the context-switch sequence.",
 		Assumptions: append([]string{"narrower than the property's 'forall plan trees': only trees the real planner emits for generated configurations, driven through the whole engine", "ID is planned as an opaque scalar (resolve.Scalar): any JSON value is accepted for it", "a merge conflict in the loader ('unable to merge results ... differing types') fails the request with a typed error before rendering; counted, not judged"}, fedAssume...), Components: fedComponents,
 	}
 
 	props["C18"] = &propCfg{
-		World: "ups", QuickRuns: 40000, ThorRuns: 2000000, QuickSecs: 200, ThorSecs: 1800, Level: "exploration", MinNontriv: 50,
+		World: "ups", QuickRuns: 120000, ThorRuns: 2000000, QuickSecs: 200, ThorSecs: 1800, Level: "exploration", MinNontriv: 50,
 		Rule: "one case = one seeded simulated execution: 2-5 concurrent Subscribe calls over option tuples that differ in exactly one of endpoint / sub-protocol / header / init payload or in none, cancellations at any yield (also during dial, init and the subscribe write), unsubscribes, ping/ack/idle timeouts from the tape, against simulated upstream servers on the far end of net.Pipe (real coder/websocket on both ends) that emit per-id next/error/complete in tape order; faults: dial error, non-101, wrong sub-protocol, ack late/never/wrong, messages for unknown ids, server pings, unanswered pings, connection drop. Oracle: per-subscription delivery == what the upstream sent for its id, in order, at most one terminal, nothing after it; connections only shared between equal option keys; a never-cancelled subscriber on a fault-free connection gets everything and no error; Subscribe returns; Stats() reaches 0 and the upstream sees the sockets closed within the idle period. Non-trivial = a connection carried more than one subscription or several connections existed. Distinct = distinct hash of the context-switch sequence.",
 		Assumptions: []string{
 			"WebSocket transport only (both sub-protocols); the SSE transport is not exercised",
@@ -132,7 +132,7 @@ func init() {
 	}
 
 	props["C19"] = &propCfg{
-		World: "wss", QuickRuns: 160000, ThorRuns: 20000000, QuickSecs: 200, ThorSecs: 1800, Level: "exploration", MinNontriv: 50,
+		World: "wss", QuickRuns: 480000, ThorRuns: 20000000, QuickSecs: 200, ThorSecs: 1800, Level: "exploration", MinNontriv: 50,
 		Rule: "one case = one seeded simulated connection to the WebSocket subscription server (websocket.HandleWithOptions with the real UniversalProtocolHandler, ExecutorEngine, TimeOutChecker and the graphql-transport-ws or graphql-ws protocol handler): a tape generated client message sequence of 2-9 messages over the protocol alphabet (connection_init with accepted / rejected / no payload, subscribe|start and complete|stop over three ids with reuse, ping/pong, the other protocol's and the server's own message types, unknown and missing types, invalid JSON, JSON that is not a message object, undecodable subscribe payloads, empty frames, duplicated deliveries, connection_terminate) with delays from zero up to beyond the connection init time-out, ending in a client disconnect or silence; scripted executors (queries and subscriptions with 0-3 events, pauses, failures, self-completion, cancellation reported as error or not); randomised keep-alive / update / init time-out / read error time-out knobs, slow client writes; faults: transient and persistent read errors, write errors. Oracle: a reference state machine per protocol run over the recorded history in event order: only message types a server may send; acks, pongs, connection_errors only as answers; data only from the operation started for that id, in executor order, never from a rejected duplicate; exactly one terminal message per operation and nothing after it; no executor before an accepted connection_init; 4400/4401/4408/4409/4429 closes exactly when prescribed (before the next read) and never otherwise; no connection drop without cause; the reader never stops reading, the handler returns when the connection ends, nothing started for the connection outlives it; operations are not cancelled while the client wants them. Non-trivial = at least one operation was started. Distinct = distinct hash of the context-switch sequence.",
 		Assumptions: []string{
 			"the TransportClient is the harness stub (the gobwas based websocket.Client and real sockets are not exercised); executors are scripted stand-ins for ExecutorV2 + engine",
